@@ -178,6 +178,9 @@ def _parse_open_file(file_obj, parse_options=None):
     headers = [''] * len(headers)
 
   rows = rows[data_offset:]
+  # The headers were guessed from a sample, but a later row may have values further to the right:
+  # add unnamed columns for them rather than dropping those values.
+  headers = headers + [u''] * (len(import_utils.expand_headers(headers, 0, rows)) - len(headers))
   num_rows = parse_options.get('NUM_ROWS', 0)
   table_data_with_types = parse_data.get_table_data(rows, len(headers), num_rows)
 
